@@ -261,6 +261,26 @@ func execC06(t *testing.T, raw json.RawMessage, res *Result) {
 		res.Violate("c03-"+c, "%s", d)
 		return
 	}
+	// what is written is what is read back, also when the key already holds damaged bytes:
+	// damage the derived objects of the first table, commit the same file to another branch
+	if c1 := rawCommit(n.Objs, refs1["heads/main"]); c1 != nil {
+		n.Objs.RawSet("tblsum/"+string(c1.Table), []byte("garbage"))
+		n.Objs.RawSet("tblidx/"+string(c1.Table), []byte{0, 0, 0, 2})
+		n.Clock += time.Hour
+		if r3 := n.Run(t, "commit", "again", file, "same data again", "-p", "id"); r3.Failed() {
+			res.Violate("commit-error", "re-committing the first file failed: %v %v", r3.Err, r3.Out.PanicVal)
+			return
+		}
+		n.Objs.TakeMonErrs()
+		if _, err := objects.GetTableProfile(n.Objs, c1.Table); err != nil {
+			res.Violate("stale-object-kept", "the table profile written by the commit does not read back (a damaged value under the same key was kept): %v", err)
+			return
+		}
+		if c, d := CheckTable(n.Objs, c1.Table); c != "" {
+			res.Violate("stale-object-kept", "after re-committing, table %x: %s %s", c1.Table, c, d)
+			return
+		}
+	}
 	lr := n.Run(t, "log", "main")
 	if lr.Failed() {
 		res.Violate("log-error", "`wrgl log main` failed after the commit: %v %v", lr.Err, lr.Out.PanicVal)
